@@ -117,6 +117,13 @@ func TestVerifLimModel(t *testing.T) {
 			add(1, 1, 9, 1000, 1090, 5, L, W, true, 0, 1100), "illegal", "illegal"},
 	}
 	for _, c := range cases {
+		capR := int64(0)
+		for _, o := range c.h.ops {
+			capR = max(capR, o.limit)
+		}
+		for _, o := range c.h.ops {
+			o.capR = capR
+		}
 		if v, _ := limCheckHistory(c.h.ops, 100000, false, true); v != c.strict {
 			t.Errorf("%s: strict model says %s, want %s", c.name, v, c.strict)
 		}
